@@ -51,7 +51,7 @@ inductive Val
   | err (v : Val)
   | list (vs : List Val)
   | variant (idx : Nat) (v : Val)
-deriving Repr, Inhabited
+deriving Repr, Inhabited, BEq
 
 /-- how a primitive is laid out -/
 inductive PKind
